@@ -73,7 +73,7 @@ RULE = ('ASTs of the documented grammar without multipliers (gen/g1_grammar.py):
         'property is about their interaction); distinct = distinct rendered text.')
 ASSUMPTIONS = [
     'gen/g1_grammar.denote is the documented meaning of the grammar (written from docs/source/syntax/basic_graph_description.rst '
-    'and the 30 strings of test_read_cgsmiles, which it reproduces); it never reads the text',
+    'and checked by g1_grammar.selftest() against the expected graphs of test_read_cgsmiles: 25 of the 30 strings agree, the other 5 use three-digit %nnn markers, outside the scope); it never reads the text',
     'the annotation table g1_grammar.ANNOTATIONS pairs each text with its documented meaning (written by hand)',
     'equality of floats written in the table with the floats the reader produces via float() (exact, same literals)',
 ]
